@@ -147,7 +147,7 @@ OpenFilePost(dh, nm, mode, h, now, pos) ==
       i == EntIdx(r.vol, r.id, nm)
       l == dirs[r.vol][r.id]
   IN IF i = 0
-     THEN /\ dirs' = [dirs EXCEPT ![r.vol][r.id] = PutAt(l, pos, NewFileEntry(nm, now))]
+     THEN /\ dirs' = [dirs EXCEPT ![r.vol][r.id] = PutAt(l, Min2(Max2(pos, 1), Len(l) + 1), NewFileEntry(nm, now))]
           /\ ofiles' = Append(ofiles, [h |-> h, vol |-> r.vol, dir |-> r.id, n |-> nm, rw |-> TRUE,
                                        off |-> 0, dirty |-> FALSE, mt |-> now, fc |-> 0])
           /\ UNCHANGED <<ovols, odirs, lim>>
@@ -244,7 +244,7 @@ DirEntryRec(nm, id, now) ==
 MkDirPost(dh, nm, newid, pos, now) ==
   LET r == RecOf(odirs, dh)
       l == dirs[r.vol][r.id]
-      withEntry == [dirs[r.vol] EXCEPT ![r.id] = PutAt(l, pos, DirEntryRec(nm, newid, now))]
+      withEntry == [dirs[r.vol] EXCEPT ![r.id] = PutAt(l, Min2(Max2(pos, 1), Len(l) + 1), DirEntryRec(nm, newid, now))]
       child == <<DirEntryRec(DotN, newid, now), DirEntryRec(DotDotN, r.id, now)>>
   IN /\ dirs' = [dirs EXCEPT ![r.vol] = [x \in DOMAIN withEntry \cup {newid} |->
                                             IF x = newid THEN child ELSE withEntry[x]]]
